@@ -37,6 +37,8 @@ namespace rpc {
     {
     public:
         Header m_header;
+        // body bytes announced by m_header that nobody has read yet
+        uint64_t m_body_pending = 0;
         IStream* m_stream;
         OutOfOrder_Execution_Engine* m_engine = new_ooo_execution_engine();
         bool m_ownership;
@@ -100,6 +102,19 @@ namespace rpc {
             }
             m_stream->timeout(args->timeout.timeout());
             DEFER(m_stream->timeout(-1));
+            while (m_body_pending) {
+                // The previous response carried a tag nobody was waiting for
+                // (e.g. its call had timed out), so nobody collected its
+                // body. Skip it: it must not be parsed as the next header.
+                char buf[4096];
+                auto n = m_stream->read(buf, std::min<uint64_t>(m_body_pending, sizeof(buf)));
+                if (n <= 0) {
+                    ERRNO err;
+                    m_stream->shutdown(ShutdownHow::ReadWrite);
+                    LOG_ERROR_RETURN(ECONNRESET, -1, "Failed to skip the body of an uncollected response ", err);
+                }
+                m_body_pending -= n;
+            }
             auto ret = args->RET = m_stream->read(&m_header, sizeof(m_header));
             args->tag = m_header.tag;
             if (ret != sizeof(m_header)) {
@@ -113,11 +128,13 @@ namespace rpc {
                 m_stream->shutdown(ShutdownHow::ReadWrite);
                 LOG_ERROR_RETURN(ECONNRESET, -1, "Header check failed");
             }
+            m_body_pending = m_header.size;
             return 0; // return 0 means it has been disconnected
         }
         int do_recv_body(OutOfOrderContext* args_)
         {
             auto args = (OooArgs*)args_;
+            m_body_pending = 0;     // consumed here (or the stream gets shut down)
             args->response->truncate(m_header.size);
             auto iov = args->response;
             if (iov->iovcnt() == 0) {
